@@ -615,7 +615,12 @@ class ExprMixin:
                 else:
                     yield from self.contains(s1, x, item)
             return
-        if isinstance(container, TupleV):
+        from .stmt import MetaIter, DictIter
+        if isinstance(container, DictIter):
+            cs = [z3.And(p, self.eq(st, item, x)) for p, x in container.entries]
+            yield st, z3.Or(*cs) if cs else z3.BoolVal(False)
+            return
+        if isinstance(container, (TupleV, MetaIter)):
             items = container.items
         elif isinstance(container, Ref):
             o = st.obj(container)
